@@ -76,6 +76,8 @@ class Typer:
                     return ("dict", self.from_ann(sl.elts[1], module))
                 return ("dict", ("val",))
             if head in ("tuple", "Tuple"):
+                if isinstance(sl, ast.Tuple) and any(isinstance(e, ast.Constant) and e.value is Ellipsis for e in sl.elts):
+                    return ("havoc",)  # variadic tuple: arity unknown
                 if isinstance(sl, ast.Tuple):
                     return ("tuple", [self.from_ann(e, module) for e in sl.elts])
                 return ("tuple", [self.from_ann(sl, module)])
@@ -150,6 +152,10 @@ def fresh_value(st, typer: Typer, t, name: str, det: bool = False):
         return wrap(t, term)
     if k == "none":
         return SNone
+    if k == "havoc":
+        from .values import SHavoc
+
+        return SHavoc(fresh_name(name))
     if k == "opt":
         inner = fresh_value(st, typer, t[1], name, det)
         return SOpt(inner, z3.Bool(fresh_name(name + "?")))
